@@ -576,6 +576,110 @@ def r8(ctx, prog):
                % (q.expr_text(f, cs['ch'][0]), ltr[1] if ltr else '?', q.expr_text(f, cs['ch'][1]), rtr[1] if rtr else '?'), where=f.loc(lp['i']))
 
 
+def r9(ctx, prog):
+    ctx.rule('C19.R9', 'A10+A4 MD5::update consumes its input through one cursor: the bytes that complete the pending block, the whole blocks hashed in place and the tail kept '
+             'for later are addressed as input + i with the same running count i (a bare `input` only where i is provably 0), so no byte is hashed twice or skipped '
+             'whatever the split into updates', floor=3)
+    f = prog.fn1('tbox::crypto::MD5::update')
+    from tbxlint import absint, rd as _rd
+    it = absint.Interp(f).run()
+    # the input pointer: the parameter and every local pointer initialised from it
+    inp = {f.params[0]['d']}
+    for st in f.stmts:
+        if st and st['k'] == 'DeclStmt':
+            for d in st['decls']:
+                if d.get('init') is not None and '*' in (d.get('t') or '') and any(f.stmts[x]['k'] == 'DeclRefExpr' and f.stmts[x].get('d') in inp for x in f.walk(d['init'])) and \
+                        q.expr_text(f, d['init']) in [f.params[0]['n']] + [n for n in ()]:
+                    inp.add(d['d'])
+    # cursor: the variable X of the final  memcpy(buffer_ + ..., input + X, len - X)
+    mcs = [st for st in f.calls() if st.get('callee') == 'memcpy']
+    cursor = None
+    for m in mcs:
+        srcx = f.s(f.strip_casts(m['args'][1]))
+        if srcx and srcx['k'] == 'BinaryOperator' and srcx.get('op') == '+':
+            l, r = f.s(f.strip_casts(srcx['ch'][0])), f.s(f.strip_casts(srcx['ch'][1]))
+            if l and l.get('d') in inp and r and r['k'] == 'DeclRefExpr':
+                cursor = r
+    if cursor is None:
+        raise AnalysisBroken('MD5::update: tail copy memcpy(buffer_ + index, input + i, len - i) not found')
+    n = 0
+    for st in f.stmts:
+        if not st or st['k'] != 'DeclRefExpr' or st.get('d') not in inp:
+            continue
+        par = f.s(f.parent.get(st['i']))
+        # skip the initialiser that defines an alias of the input pointer itself and null checks
+        top = st['i']
+        while par is not None and par['k'] in ('ImplicitCastExpr', 'CXXStaticCastExpr', 'CStyleCastExpr', 'ParenExpr', 'CXXReinterpretCastExpr'):
+            top = par['i']
+            par = f.s(f.parent.get(top))
+        if par is None:
+            continue
+        if par['k'] == 'DeclStmt' and any(d.get('d') in inp for d in par['decls']):
+            continue
+        if par['k'] == 'BinaryOperator' and par.get('op') in ('!=', '=='):
+            continue
+        if par['k'] in q.CALL_KINDS and (par.get('callee') or '').startswith(('tbox::', '__assert')) is False and par.get('callee') not in ('memcpy', 'memmove') and 'Transform' not in (par.get('callee') or '') and par['k'] == 'CallExpr' and False:
+            continue
+        n += 1
+        if par['k'] == 'BinaryOperator' and par.get('op') == '+':
+            other = par['ch'][1] if f.strip_casts(par['ch'][0]) == st['i'] or top == par['ch'][0] else par['ch'][0]
+            o = f.s(f.strip_casts(other))
+            ok = o is not None and o['k'] == 'DeclRefExpr' and o.get('d') == cursor['d']
+            ctx.ob('C19.R9', 'MD5::update|input+%s@%s' % (q.expr_text(f, other), f.loc(st['i']).split(':')[-1]), ok,
+                   'input addressed through the cursor %s' % cursor['n'] if ok else
+                   'input addressed as input + %s, not through the running count %s: bytes are hashed twice or skipped for some splits' % (q.expr_text(f, other), cursor['n']), where=f.loc(st['i']))
+        else:
+            env = it.at(st['i']) or {}
+            iv = it.var(env, cursor['d'])
+            ok = iv == (0, 0)
+            ctx.ob('C19.R9', 'MD5::update|input@%s' % f.loc(st['i']).split(':')[-1], ok,
+                   'bare input pointer used where %s == 0' % cursor['n'] if ok else
+                   'the input pointer is used without the offset %s at a point where %s can be %s: the bytes already consumed to complete the pending block are hashed again' %
+                   (cursor['n'], cursor['n'], iv), where=f.loc(st['i']))
+    if n < 3:
+        raise AnalysisBroken('MD5::update: expected >= 3 uses of the input pointer, saw %d' % n)
+
+
+def r10(ctx, prog):
+    ctx.rule('C19.R10', 'A10 no use of a wrapped length: in the CRC/checksum loops an unsigned remaining-length that is decremented where it may already be 0 (the `n-- > 0` idiom '
+             'leaves SIZE_MAX behind when the test fails) is never read again after that test failed', floor=2)
+    from tbxlint import absint
+    n = 0
+    for f in prog.funcs.values():
+        if f.parent_usr or not f.file.endswith(('util/crc.cpp', 'util/checksum.cpp')):
+            continue
+        it = absint.Interp(f).run()
+        for st in f.stmts:
+            if not st or st['k'] != 'UnaryOperator' or st.get('op') != '--':
+                continue
+            v = f.s(f.strip_casts(st['ch'][0]))
+            if not v or v['k'] != 'DeclRefExpr' or v.get('d') not in it.types or it.types[v['d']][0] != 0:
+                continue
+            env = it.at(st['i']) or {}
+            cur = it.var(env, v['d'])
+            if cur is None or cur[0] > 0:
+                continue        # cannot be zero here
+            n += 1
+            # the block whose condition contains this decrement, and its false edge
+            bad = None
+            for b in f.cfg.blocks.values():
+                if b.cond is not None and st['i'] in set(f.walk(b.cond)) and len(b.succ) == 2 and b.succ[1] is not None:
+                    start = (b.succ[1], 0)
+                    redefs = [q.pt(f, a) for a in f.stmts if a and a['k'] in ('BinaryOperator',) and a.get('op') == '=' and (f.s(f.strip_casts(a['ch'][0])) or {}).get('d') == v['d']]
+                    for r in f.stmts:
+                        if r and r['k'] == 'DeclRefExpr' and r.get('d') == v['d'] and r['i'] != v['i']:
+                            rp = f.cfg.point_of(r['i'])
+                            if rp is not None and (rp == start or f.cfg.exists_path(start, rp, avoid=[x for x in redefs if x], src_inclusive=True)):
+                                bad = r
+                                break
+            ctx.ob('C19.R10', '%s|%s--@%s' % (f.name, v['n'], f.loc(st['i']).split(':')[-1]), bad is None,
+                   '%s may be 0 at this decrement, and it is not read again after the test failed' % v['n'] if bad is None else
+                   '%s can be 0 when it is decremented here, wraps to the maximum of its type, and is read again at %s: the following loop runs over memory far beyond the input' %
+                   (v['n'], f.loc(bad['i'])), where=f.loc(st['i']))
+    if n < 2:
+        raise AnalysisBroken('expected the two `data_size-- > 0` loops of crc.cpp, saw %d decrement-at-zero sites' % n)
+
+
 def _cmp_eval(f, cond, i):
     cs = f.s(f.strip_casts(cond))
     a, b = q.eval_int(f, cs['ch'][0], {'i': i}), q.eval_int(f, cs['ch'][1], {'i': i})
@@ -594,4 +698,6 @@ def run(ctx):
     ctx.guard(r6, ctx, prog)
     ctx.guard(r7, ctx, prog)
     ctx.guard(r8, ctx, prog)
+    ctx.guard(r9, ctx, prog)
+    ctx.guard(r10, ctx, prog)
     return prog
